@@ -623,7 +623,7 @@ def stepOK (cfg : Cfg) (w : World SBatch SIter) : Op → Bool
     | some (some it) => it.cur.isSome
     | _ => true
   | .update _ fail ops => (fail || othersNoRange w none) && ops.all (innerOK cfg)
-  | .close => noLiveReaders w
+  | .close => noLiveReaders w && othersNoRange w none
   | .sclose s => w.db.isSome && noLiveIterFrom w (.snap s)
   | _ => true
 
